@@ -103,6 +103,16 @@ Theorem c07_crash_between_operations_after_restarts : forall (c : Cfg) (m : mode
   forall t, stream (get_ts (reopen c (exec (env_of c m be) init ops)) t) = stream (get_ts (exec (env_of c m be) init ops) t).
 Proof. exact restart_rebuilds_streams_after_restarts. Qed.
 
+(* the boolean form after any history with restarts outside drift *)
+Theorem c07_crash_inside_batch_accepted_after_restarts : forall (c : Cfg) (m : mode) (be : backend) (ops : list op) (t : topic) (es : list entry) (j : nat),
+  cfg_ok c -> outside_known (env_of c m be) init ops = true ->
+  N.of_nat (length (offered_all ops)) <= u64_max -> sum_len (offered_all ops) <= u64_max ->
+  batch_ok c t es ->
+  let s := exec (env_of c m be) init ops in
+  c07_ok (stream_of s (t_id t)) es (map out_of (stream_of (batch_crash c s t es j) (t_id t))) = true /\
+  forall t0, t0 <> t_id t -> stream_of (batch_crash c s t es j) t0 = stream_of s t0.
+Proof. exact crash_inside_batch_c07_after_restarts. Qed.
+
 (* non-vacuity: a history with a restart (outside drift), then an append *)
 Example c07_witness_after_restart :
   outside_known (env_of small_cfg Strict Fd) init [OAppend tq0 (eq0_ 0 3000); OReopen; OAppend tq0 (eq0_ 1 3000)] = true.
@@ -147,3 +157,11 @@ Check c07_crash_inside_append_after_restarts : forall (c : Cfg) (m : mode) (be :
     forall t0, t0 <> t_id t -> stream (get_ts image t0) = stream (get_ts s t0).
 Print Assumptions c07_crash_inside_append_after_restarts.
 Print Assumptions c07_crash_between_operations_after_restarts.
+Check c07_crash_inside_batch_accepted_after_restarts : forall (c : Cfg) (m : mode) (be : backend) (ops : list op) (t : topic) (es : list entry) (j : nat),
+  cfg_ok c -> outside_known (env_of c m be) init ops = true ->
+  N.of_nat (length (offered_all ops)) <= u64_max -> sum_len (offered_all ops) <= u64_max ->
+  batch_ok c t es ->
+  let s := exec (env_of c m be) init ops in
+  c07_ok (stream_of s (t_id t)) es (map out_of (stream_of (batch_crash c s t es j) (t_id t))) = true /\
+  forall t0, t0 <> t_id t -> stream_of (batch_crash c s t es j) t0 = stream_of s t0.
+Print Assumptions c07_crash_inside_batch_accepted_after_restarts.
